@@ -166,6 +166,9 @@ def evalUnitName (ctx : Ctx) : Expr → Outcome (NameMap × Numeric)
   | .binop .frac l r => do
     let (lu, lv) ← evalUnitName ctx l
     let (ru, rv) ← evalUnitName ctx r
+    -- a zero divisor is "Division by zero" (only the left value of a sum is kept, so `m / (0 + 1)` divides by 0)
+    if rv == .rational 0 then .err .generic else
+    if rv == .float then .unsupported "float divisor in conversion target" else do
     let v ← Numeric.div lv rv
     pure (nmMerge lu (ru.map fun (k, p) => (k, -p)), v)
   | .binop .pow l r => do
@@ -180,7 +183,8 @@ def evalUnitName (ctx : Ctx) : Expr → Outcome (NameMap × Numeric)
         let (lu, lv) ← evalUnitName ctx l
         if k.natAbs * Number.bitSize lv > Number.hugeBits then .unsupported "huge power" else
         -- `right as i32` saturates; |k| < 2^31 here unless the value is huge
-        if k.natAbs ≥ 2147483648 then .unsupported "exponent beyond i32" else do
+        if k.natAbs ≥ 2147483648 then .unsupported "exponent beyond i32" else
+        if k < 0 && lv == .rational 0 then .err .generic else do
         let v ← lv.pow k
         pure ((lu.filterMap fun (n, p) => if p * k ≠ 0 then some (n, p * k) else none), v)
   | .binop .shl _ _ | .binop .shr _ _ => .err .generic
@@ -367,6 +371,8 @@ def evalQuery (ctx : Ctx) (q : Query) : Outcome Reply :=
   | .convert _ _ _ _ => .err .generic
   | .factorize e => do
     let v ← quantityOrValue ctx e
+    -- the model's search is the unmemoised one: exponential in the complexity of the unit
+    if Commands.score v.unit > 9 then .unsupported "factorize of a complex unit" else
     pure (.factorize (Commands.factorizeReply ctx.reg.quantities v.unit))
   | .unitsFor e => do
     let v ← quantityOrValue ctx e
